@@ -263,7 +263,7 @@ func (c *Ctx) FreeRun(src string, cfg g.SimulatorConfig, note string) {
 // RunFree enumerates the free-running pass.
 func (c *Ctx) RunFree(tier string) {
 	rep := c.Rep
-	lex := Lexemes("\x1a")
+	lex := append(Lexemes("\x1a"), Specials...)
 	n := 3
 	if tier == "thorough" {
 		n = 4
